@@ -35,11 +35,11 @@ package main
 //@ func RRVolumeManager.NextWritable trusted
 //@   modifies RRVolumeManager.counter
 //@ pure ctxlog.FromContext
-//@ func contextForResponse property C01,C02
+//@ func contextForResponse trustedframe property C01,C02
 //@   modifies nothing
 //@ func getBufferWithContext trusted
 //@   modifies nothing
-//@ func bufferPool.Put property C01,C02
+//@ func bufferPool.Put trustedframe property C01,C02
 //@   modifies nothing
 
 // --------------------------------------------------------------------- C01
@@ -347,9 +347,18 @@ package main
 //@   ensures forall k int :: 0 <= k && k < n ==> buf[k] == streamat(rdr, old(cursor(rdr)) + k)
 //@   ensures err == io.EOF ==> cursor(rdr) == streamlen(rdr)
 
-//@ func collisionOrCorrupt trusted
+// collisionOrCorrupt never returns nil: a stored copy that differs from the
+// data being written is always reported (as a collision, as corruption, or as
+// the read error that prevented telling which).  The verdict travels over the
+// local channel 'outcome'; its channel invariant (only non-nil errors are ever
+// sent) is proved at both sends of the hashing goroutine and assumed at the two
+// receives.
+//@ func collisionOrCorrupt property C01,C02 safety -bounds,-makeslice
 //@   modifies all
+//@   chan outcome: $v != nil
 //@   ensures result != nil
+//@ func collisionOrCorrupt$1 property C01,C02 safety -bounds
+//@   modifies all
 
 // compareReaderWithBuf: nil is returned only if the stored stream is exactly
 // the expected bytes - same length, same content; a truncated, extended or
@@ -449,7 +458,7 @@ package main
 // error; Mtime reports the modification time of the block's own file.
 //@ iface FileInfo.Size pure
 //@   modifies nothing
-//@ func UnixVolume.blockPath property C01,C02,C04 pure
+//@ func UnixVolume.blockPath trustedframe property C01,C02,C04 pure
 //@   modifies nothing
 //@ func UnixVolume.Get property C01,C02
 //@   calls getWithPipe#1: requires $1 == loc && $2 == buf && $3 == iface(v)
